@@ -24,11 +24,35 @@ type Ctl struct {
 	hits   map[string]int
 	trace  []string
 	onHit  func(point string, n int)
+	paused bool
+	wake   chan struct{} // closed by Pause: releases goroutines already sleeping at a yield point
+}
+
+// Pause disables all delays (hits are still recorded). Needed while several goroutines may contend
+// on a sync.Mutex of the code under test: a goroutine sleeping in virtual time while holding the mutex
+// would stall the bubble, because waiting for a mutex is not a durable block for synctest.
+func (c *Ctl) Pause() {
+	c.mu.Lock()
+	if !c.paused {
+		c.paused = true
+		close(c.wake)
+	}
+	c.mu.Unlock()
+}
+
+// Resume re-enables the delays.
+func (c *Ctl) Resume() {
+	c.mu.Lock()
+	if c.paused {
+		c.paused = false
+		c.wake = make(chan struct{})
+	}
+	c.mu.Unlock()
 }
 
 // New creates a controller. seed drives the random policy.
 func New(seed uint64) *Ctl {
-	return &Ctl{fixed: map[string][]time.Duration{}, repeat: map[string]bool{}, random: map[string]bool{}, hits: map[string]int{}, seed: seed}
+	return &Ctl{fixed: map[string][]time.Duration{}, repeat: map[string]bool{}, random: map[string]bool{}, hits: map[string]int{}, seed: seed, wake: make(chan struct{})}
 }
 
 // Delay sets the delays of the successive hits of a point (scripted policy).
@@ -77,12 +101,21 @@ func (c *Ctl) at(point string) {
 		d = randomDelays[h.Sum64()%uint64(len(randomDelays))]
 	}
 	f := c.onHit
+	if c.paused {
+		d = 0
+	}
+	wake := c.wake
 	c.mu.Unlock()
 	if f != nil {
 		f(point, n)
 	}
 	if d > 0 {
-		time.Sleep(d)
+		t := time.NewTimer(d)
+		select {
+		case <-t.C:
+		case <-wake:
+			t.Stop()
+		}
 	}
 }
 
